@@ -18,7 +18,7 @@ CONFIG = dict(
              "model), base64 decoder and scrypt.Key parameter checks validated separately, real wallets of each type locked, "
              "serialised, searched for every original secret, reloaded and unlocked; after every Unlock (successful or not) and after "
              "any use of the unlocked copy or of a Clone the locked wallet is re-serialised and must be unchanged and secret-free "
-             "(aliasing checks between a wallet and its Clone for all four wallet types); wallets extended WHILE LOCKED on both bip44 chains (and through GuardUpdate) must unlock to the never-locked twin of the same seed with every entry's secret key matching its public key. The cipher is looked up in the model (lockT/unlockT: recorded cryptoType, crypto.DefaultCryptoType when the meta has none): unlock_lockT / lockT_records / lockT_ok_iff cover wallets WITHOUT a recorded crypto type; wallets loaded (wallet.Load) from sparse or legacy serialised forms - cryptoType/encrypted/version/tm/label absent, legacy spellings, every loadable unencrypted *.wlt in the repo's testdata directories - go through the same Lock / reload / Unlock cycle and through Service.EncryptWallet / DecryptWallet with fresh services, a few of them per run through the real default scrypt cipher.",
+             "(aliasing checks between a wallet and its Clone for all four wallet types); wallets extended WHILE LOCKED on both bip44 chains (and through GuardUpdate) must unlock to the never-locked twin of the same seed with every entry's secret key matching its public key. The cipher is looked up in the model (lockT/unlockT: recorded cryptoType, crypto.DefaultCryptoType when the meta has none): unlock_lockT / lockT_records / lockT_ok_iff cover wallets WITHOUT a recorded crypto type; wallets loaded (wallet.Load) from sparse or legacy serialised forms - cryptoType/encrypted/version/tm/label absent, legacy spellings, every loadable unencrypted *.wlt in the repo's testdata directories - go through the same Lock / reload / Unlock cycle and through Service.EncryptWallet / DecryptWallet with fresh services, a few of them per run through the real default scrypt cipher. sha256-xor plaintexts and wallet secrets beyond 64 and 8192 blocks (multi-byte varint block index) are encrypted first in the process and short ones after them (xafter: long then short in ONE op); Encrypt's ciphertext is decrypted by the Lean reference (xref), reference-built ciphertexts by the implementation (xdec, now a property failure when the reference decrypts and the implementation does not).",
         note="Assumed: cipher correctness / authenticity as explicit hypotheses (CipherOK, WrongKeyRejected); json.Unmarshal, the "
              "scrypt core, chacha20poly1305 core, SHA-256 and Secp256k1Hash do not panic (they are total parameters); ciphertexts "
              "shorter than 2^38 bytes. Memory exhaustion (OOM kill) for 2^26 < 128*N*r <= 2^48 is a runtime effect outside the model.",
@@ -44,5 +44,5 @@ CONFIG = dict(
          "raw bytes, every length-prefix edit incl. 65533..65535, truncations, nonce/salt sizes, N/r/p/keyLen in {negative,0,huge,"
          "non-numeric}, malformed JSON, bit flips of raw bytes and of the base64 text, random bytes; sha256-xor: the same "
          "transforms with and without a repaired outer checksum, inner length edits; Encrypt/Decrypt round trips; Lock/Unlock "
-         "of deterministic, bip44 and collection wallets with both ciphers; loaded wallets: NewWallet serialisations with meta fields dropped / respelled, all testdata fixtures (slow recorded type replaced in quick), per type one wallet without cryptoType through the default cipher",
+         "of deterministic, bip44 and collection wallets with both ciphers; loaded wallets: NewWallet serialisations with meta fields dropped / respelled, all testdata fixtures (slow recorded type replaced in quick), per type one wallet without cryptoType through the default cipher; large-then-small sha256-xor plaintexts (1980..4100 bytes, thorough up to 262 200) and 18/25/40-address wallets followed by small ones",
 )
